@@ -126,11 +126,83 @@ func (vt *v2T) scenC01() {
 		}
 		vt.reset(false)
 	}
+	vt.scenC01Composite()
+}
+
+// Composite user documents and documents registered late.
+//   D(a,b) = words of a ++ first half of b, a few words replaced.  In "a <one short junk line> b" D's candidate spans a and
+//   half of b at a confidence below 1: it line-contains a with more weighted tokens (a proposal to evict a) and is itself
+//   rejected because it partially overlaps the retained b -- a and b must both be reported (retain loop: proposals of a
+//   rejected candidate are void).
+//   Late documents are registered after the classifier has served calls, and must be found like any other.
+func (vt *v2T) scenC01Composite() {
+	for ci, thr := range []float64{0.8, 0.7, 0.9} {
+		c := vt.build(fmt.Sprintf("c01c_%d", ci), thr, nil)
+		q := v2Q(thr)
+		mk := func(name string, words []string) v2Doc {
+			var sb strings.Builder
+			for i, w := range words {
+				sb.WriteString(w)
+				if i%7 == 6 || i == len(words)-1 {
+					sb.WriteByte('\n')
+				} else {
+					sb.WriteByte(' ')
+				}
+			}
+			return v2Doc{Key: "License/" + name + "/license.txt", Cat: "License", Name: name, Variant: "license.txt", Data: []byte(sb.String())}
+		}
+		words := func(tag string, n int) []string {
+			ws := make([]string, n)
+			for i := range ws {
+				ws[i] = fmt.Sprintf("cmp%s%c%c", tag, 'a'+i/26, 'a'+i%26)
+			}
+			return ws
+		}
+		nb := 5
+		var base []v2Doc
+		var bw [][]string
+		for i := 0; i < nb; i++ {
+			w := words(fmt.Sprintf("%c%c", 'a'+ci, 'a'+i), 35+vt.rng.Intn(30))
+			bw = append(bw, w)
+			base = append(base, mk(fmt.Sprintf("Base-%d-%d", ci, i), w))
+			vt.add(c, base[i])
+		}
+		for i := 0; i < nb; i++ {
+			for j := 0; j < nb; j++ {
+				if i == j || vt.rng.Intn(2) == 0 {
+					continue
+				}
+				w := append(append([]string(nil), bw[i]...), bw[j][:len(bw[j])/2]...)
+				for k := 1 + vt.rng.Intn(2); k > 0; k-- {
+					w[vt.rng.Intn(len(bw[i]))] = fmt.Sprintf("cmpsub%c%c%c", 'a'+ci, 'a'+i, 'a'+j)
+				}
+				vt.add(c, mk(fmt.Sprintf("Comp-%d-%d-%d", ci, i, j), w))
+			}
+		}
+		for i := 0; i < nb; i++ {
+			for j := 0; j < nb; j++ {
+				if i != j {
+					vt.plantCaseSep(c, []v2Doc{base[i], base[j]}, q, 2)
+				}
+			}
+		}
+		// registered after the classifier has been used
+		for i := 0; i < 3; i++ {
+			late := mk(fmt.Sprintf("Late-%d-%d", ci, i), words(fmt.Sprintf("l%c%c", 'a'+ci, 'a'+i), 12+vt.rng.Intn(40)))
+			vt.add(c, late)
+			vt.plantCaseSep(c, []v2Doc{late}, q, 0)
+			vt.plantCaseSep(c, []v2Doc{base[vt.rng.Intn(nb)], late}, q, 2)
+		}
+		vt.reset(false)
+	}
 }
 
 // plantCase builds ctx . copy (. ctx . copy)* . ctx, records where each copy sits (from the white-box
 // tokenisation of the pieces, not from match's arithmetic), then matches.
-func (vt *v2T) plantCase(c *v2C, planted []v2Doc, q int) {
+func (vt *v2T) plantCase(c *v2C, planted []v2Doc, q int) { vt.plantCaseSep(c, planted, q, 0) }
+
+// plantCaseSep: sepWords > 0 separates the copies by one line of 1..sepWords out-of-vocabulary words instead of a block.
+func (vt *v2T) plantCaseSep(c *v2C, planted []v2Doc, q int, sepWords int) {
 	var buf bytes.Buffer
 	type pl struct {
 		d              v2Doc
@@ -166,7 +238,15 @@ func (vt *v2T) plantCase(c *v2C, planted []v2Doc, q int) {
 		if !piece(planted[i].Data, &planted[i]) {
 			return
 		}
-		piece(vt.oovBlock(c, 5), nil)
+		if sepWords > 0 && i+1 < len(planted) {
+			var ws []string
+			for k := 1 + vt.rng.Intn(sepWords); k > 0; k-- {
+				ws = append(ws, vt.oovWord(c))
+			}
+			piece([]byte(strings.Join(ws, " ")+"\n"), nil)
+		} else {
+			piece(vt.oovBlock(c, 5), nil)
+		}
 	}
 	data := buf.Bytes()
 	// pieces must tokenise independently (a piece ending in a hyphenated line would join with the next one)
